@@ -191,7 +191,12 @@ class Ctx:
         return path
 
     def violation(self, name, obj, found_input=True):
-        self.violations.append((self.replay(name, obj), found_input))
+        if len(self.violations) >= 6:      # a handful of replays is enough to act on
+            self.suppressed = getattr(self, "suppressed", 0) + 1
+            return
+        path = self.replay(name, obj)
+        if path not in [p for p, _ in self.violations]:
+            self.violations.append((path, found_input))
 
     def finish(self, level="proof"):
         ev = {
